@@ -39,6 +39,30 @@ Theorem c16_roundtrip_bounded : forall m, In m corpus -> wf_modul m = true /\ ro
 Proof. exact corpus_roundtrip. Qed.
 Print Assumptions c16_roundtrip_bounded.
 
+(* ---- the repaired code: components, for all inputs *)
+Theorem c16_type_roundtrip : forall t, get_type (write_type t) = Ok t.
+Proof. exact type_roundtrip. Qed.
+Print Assumptions c16_type_roundtrip.
+Theorem c16_bytes_roundtrip : forall d, all_byte d = true -> asc2bin (bin2asc d) = Ok d.
+Proof. exact bytes_roundtrip. Qed.
+Print Assumptions c16_bytes_roundtrip.
+Theorem c16_const_roundtrip : forall c, read_const (write_const c) = Ok c.
+Proof. exact const_roundtrip. Qed.
+Print Assumptions c16_const_roundtrip.
+(* a global variable WITH its initial value is reconstructed and registered in the module scope *)
+Theorem c16_variable_roundtrip : forall gn g st,
+  wf_gvar gn g = true -> rs_infun st = false ->
+  plookup (g_name g) (rs_pend st) = None -> vlookup (g_name g) (rs_glob st) = None ->
+  construct_variable cfg_fixed (write_variable cfg_fixed g) st = Ok (g, reg_glob (g_name g) st).
+Proof. exact variable_roundtrip. Qed.
+Print Assumptions c16_variable_roundtrip.
+Theorem c16_external_roundtrip : forall e st,
+  rs_infun st = false ->
+  plookup (ext_name e) (rs_pend st) = None -> vlookup (ext_name e) (rs_glob st) = None ->
+  construct_external (write_external e) st = Ok (e, reg_glob (ext_name e) st).
+Proof. exact external_roundtrip. Qed.
+Print Assumptions c16_external_roundtrip.
+
 Example c16_nonvacuous :
   (10 <= List.length corpus)%nat /\ forallb (rt_ok cfg_fixed) [w_value; w_volatile; w_copyblob; w_undefined; w_fwdtype] = true.
 Proof. split; [exact corpus_nonempty | exact fixed_witnesses]. Qed.
